@@ -9,12 +9,15 @@ Open Scope N_scope.
 Theorem C04_valid_implies_bound : forall (env : renv) (d : rdoc),
   o_issuer (validate_document env d) = Valid -> bound_spec d.
 Proof. exact valid_implies_bound. Qed.
+Print Assumptions C04_valid_implies_bound.
 
 Theorem C04_bound_is_checked : forall d, data_bound d = true -> bound_spec d.
 Proof. exact data_bound_spec. Qed.
+Print Assumptions C04_bound_is_checked.
 
 (* the model's digest input is the ISO one *)
 Theorem C04_digest_input : forall alg item,
   digest alg (KeySchedule.tag24_wrap item) =
   iso_item_digest (match alg with Sha256 => 256 | Sha384 => 384 | Sha512 => 512 end) item.
 Proof. intros [] item; reflexivity. Qed.
+Print Assumptions C04_digest_input.
